@@ -490,7 +490,8 @@ def c_plan(tu, r2c, inplace, fwd, bf):
 
 
 def c_copy(tu, fname, plan):
-    ev = cpoly.CEval(tu, fname, {"plan": plan}).run()
+    # inline=True: a row count / offset delegated to a helper of the same translation unit is evaluated too
+    ev = cpoly.CEval(tu, fname, {"plan": plan}, inline=True).run()
     if len(ev.copies) != 1:
         raise core.AnalysisError("%s: %d copy loop nests on the executed path; 1 expected" % (fname, len(ev.copies)))
     return ev.copies[0]
@@ -815,6 +816,20 @@ def _move_guard_after_write(text):
     return text.replace(g, "", 1).replace(w, w + g, 1)
 
 
+def _rows_helper_wrong_dims(text):
+    head = "void write_fft_input(fft_plan_t *plan, void *input) {"
+    if text.count(head) != 1:
+        return None
+    i = text.index(head)
+    j = text.find("const size_t blksize = size / last_dim1;", i)
+    if j < 0:
+        return None
+    helper = ("static size_t padded_rows_(fft_plan_t *plan) {\n    size_t n = plan->batch_first ? plan->ntransform : 1;\n"
+              "    for (int i = 1; i < plan->ndim; i++) {\n        n *= plan->dims[i];\n    }\n    return n;\n}\n\n")
+    return (text[:i] + helper + text[i:j] + "const size_t blksize = padded_rows_(plan);"
+            + text[j + len("const size_t blksize = size / last_dim1;"):])
+
+
 def mutants(tree):
     return [
         Mutant("remove the shape test", FP,
@@ -885,6 +900,11 @@ def mutants(tree):
         Mutant("buffer: real branch converts the dtype but keeps the caller's memory order", FP,
                "            x = np.ascontiguousarray(x, dtype=np.float64)\n", "            x = np.asarray(x, dtype=np.float64)\n",
                expect="buffer-layout"),
+        Mutant("buffer: complex branch uses order='K' (keeps the caller's layout: no C-contiguity guarantee)", FP,
+               "            x = np.ascontiguousarray(x, dtype=np.complex128)\n",
+               "            x = np.array(x, dtype=np.complex128, order=\"K\", copy=False)\n", expect="buffer-layout"),
+        Mutant("C: padded-row count of write_fft_input delegated to a helper that multiplies dims[1..ndim-1]", CFULL,
+               fn=_rows_helper_wrong_dims, expect="layout"),
         Mutant("C: FFTW is planned on a filtered copy of the dims", CFULL,
                "    if (plan->r2c) {\n        if (plan->fwd) {\n            plan->plan = fftw_plan_many_dft_r2c(\n                plan->ndim, plan->dims,",
                "    int rank = 0;\n    int n[plan->ndim];\n    for (int i = 0; i < plan->ndim; i++) {\n        if (plan->dims[i] != 1) {\n"
